@@ -30,6 +30,9 @@ def run(rep, idx, tier):
     rep.require("C14.2", 5)
     rep.require("C14.3", 4)
     rep.require("C14.4", 3)
+    rep.require("C14.5", 1)
+    from . import glue as _glue
+    _glue.write_once_handles(rep, "C14.5", idx, "csr/event:EventMonitor")
     c = get_ctx(idx, "EventMonitor.elaborate")
     ctor = get_ctor(idx, "EventMonitor")
     rep.analysed(c.fi.site, ctor.fi.site)
